@@ -344,6 +344,13 @@ class SimKernel:
                 self.schedule_death(p, r[1], sig, cause)
             elif r[0] == 'exit':
                 self.schedule_death(p, r[1], (r[2] & 0xff) << 8, cause)
+            elif r[0] == 'fork':
+                # the process takes the signal as "start another helper" and otherwise goes on: a child that did
+                # not exist when the signal was sent
+                n0 = set(self.procs)
+                self._spawn_tree(p.pid, {'beh': {'*': ['ignore']}}, str(p.tag).replace('kid:', ''))
+                for np_ in set(self.procs) - n0:
+                    self.procs[np_].popen_kw = {'forked_on_signal': (self.clock.now, sig)}
         self._settle()
 
     def waitpid(self, pid, flags):
